@@ -388,7 +388,35 @@ def chk_send(payload: bytes, tx0, rx0) -> Result:
     return r
 
 
+def chk_replies(frms):
+    """The frames the host writes BY ITSELF - the ACK or NAK answering each received DATA frame - compared bit for bit
+    with the independent encoder (next expected number, nRdy and the reserved bit clear), over runs that wrap the numbers."""
+    r = Result(nontrivial=True, classes=["host-written-replies"])
+    proto, tr, up = make_host()
+    exp = 0
+    for k, frm in enumerate(frms):
+        n0 = len(tr.writes)
+        payload = bytes([0xC3, k & 0xFF, 0x00, frm])
+        try:
+            proto.data_received(refash.wire(refash.enc_data(frm, 0, 0, payload)))
+        except Exception as e:
+            r.bad("C03:receive-raises:DATA", f"frame {k} (frmNum {frm}) of {frms}: {e!r}")
+            return r
+        if frm == exp:
+            exp = (exp + 1) % 8
+            want = refash.wire(refash.enc_ack(exp))
+        else:
+            want = refash.wire(refash.enc_nak(exp))
+        got = b"".join(d for _, d in tr.writes[n0:])
+        if got != want:
+            r.bad("C03:reply-bytes-differ:" + ("ACK" if want[0] & 0x20 == 0 else "NAK"),
+                  f"frame {k} (frmNum {frm}) of {frms}: host wrote {got.hex()}, independent encoder gives {want.hex()}")
+            return r
+    return r
+
+
 DISPATCH = {
+    "replies": lambda p: chk_replies(p["frms"]),
     "data": lambda p: chk_data(p["frm"], p["retx"], p["ack"], bytes.fromhex(p["payload"])),
     "ack": lambda p: chk_acknak("ack", p["res"], p["nrdy"], p["ack"]),
     "nak": lambda p: chk_acknak("nak", p["res"], p["nrdy"], p["ack"]),
@@ -466,6 +494,13 @@ def run(ctx):
                 ctx.check({"t": "wseq", "frames": [a, b]}, chk_wire_seq([a, b]), sample=(a == an[3] and b == an[11]))
     ctx.exhaustive["ordered pairs of ACK/NAK frames through one instance"] = True
 
+    # the host's own ACK / NAK for received DATA frames: three times round the numbers, and with a refused frame at each position
+    ctx.check({"t": "replies", "frms": [i % 8 for i in range(26)]}, chk_replies([i % 8 for i in range(26)]))
+    for pos in range(17):
+        for off in (1, 2, 7):
+            frms = [i % 8 for i in range(pos)] + [(pos + off) % 8] + [(pos + i) % 8 for i in range(10)]
+            ctx.check({"t": "replies", "frms": frms}, chk_replies(frms), sample=(pos == 7 and off == 1))
+    ctx.exhaustive["host-written ACK/NAK bytes for 26 in-sequence frames and a refused frame at each of 17 positions"] = True
     lengths = [0, 1, 2, 3, 7, 8, 127, 128, 129, 200, 255, 256] if quick else list(range(0, 257))
     jobs = [lengths[i::16] for i in range(16)]
     ctx.parallel(_worker_data, [j for j in jobs if j])
